@@ -21,7 +21,9 @@ St(b) == <<0>> \o [i \in 1 .. 6 |-> ((i + 2 * b) % 9) + 1] \o <<0>>
 P6 == <<3, 1, 4, 2, 6, 5>>
 Sgn(i) == IF i % 3 = 0 THEN -1 ELSE 1
 SIdx(x) == (x % NStr) + 1
-TagList(n, b, i) == [j \in 1 .. n |-> <<SIdx(b + i + j), SIdx(b + 2 * i + 3 * j)>>]
+\* every third tag has string-table index 0 as its VALUE (the reserved blank entry: an empty value such as note=""; in
+\* keys_vals only a KEY index 0 is the delimiter)
+TagList(n, b, i) == [j \in 1 .. n |-> <<SIdx(b + i + j), IF (b + i + j) % 3 = 0 THEN 0 ELSE SIdx(b + 2 * i + 3 * j)>>]
 
 NodeAt(b, g, i, ntags) ==
   [id  |-> Sgn(i) * (100 * b + 10 * g + P6[i]),
@@ -175,7 +177,9 @@ FamShapes(fam, full, seed) ==
          \cup {<<5, s[1], s[2], s[3]>> : s \in five}
          \cup (IF full THEN {<<3, s[1], s[2], s[3]>> : s \in k2 \X k1 \X k2} ELSE {})
        \* header block: every subset of its optional fields
-    [] fam = "header"      -> {<<f, z, r>> : f \in [1 .. 8 -> BOOLEAN], z \in (IF full THEN BOOLEAN ELSE {seed % 2 = 0}), r \in (IF full THEN BOOLEAN ELSE {seed % 2 = 1})}
+    [] fam = "header"      -> {<<f, z, r, FALSE>> : f \in [1 .. 8 -> BOOLEAN], z \in (IF full THEN BOOLEAN ELSE {seed % 2 = 0}), r \in (IF full THEN BOOLEAN ELSE {seed % 2 = 1})}
+                              \* and the header block without any field at all (a zero-length message), raw and zlib
+                              \cup {<<[i \in 1 .. 8 |-> FALSE], z, FALSE, TRUE>> : z \in BOOLEAN}
        \* unsorted files with many blocks
     [] fam = "unsorted"    -> {<<k>> : k \in 1 .. 5}
        \* a small family on which every Bug variant of PbfFormatCache must violate NoInherit (non-vacuity probes)
@@ -235,7 +239,7 @@ FamBuild(fam, full, seed, x) ==
                       ELSE IF f[2] THEN <<177, -178, 10, -10>>
                       ELSE IF f[5] THEN <<-10, 10, -20, 20>>
                       ELSE <<-170, 175, 85, -80>>,
-             req  |-> IF f[2] THEN <<"OsmSchema-V0.6", "DenseNodes", "HistoricalInformation">> ELSE (IF f[3] THEN << >> ELSE <<"DenseNodes">>),
+             req  |-> IF f[2] THEN <<"OsmSchema-V0.6", "DenseNodes", "HistoricalInformation">> ELSE (IF f[3] \/ x[4] THEN << >> ELSE <<"DenseNodes">>),
              opt  |-> IF f[3] THEN <<4, 2>> ELSE (IF f[2] THEN <<5>> ELSE << >>),
              prog |-> OptF(f[4], 3), src |-> OptF(f[5], IF f[4] THEN 0 ELSE 6),
              rts  |-> OptF(f[6], IF f[7] THEN 0 ELSE 9), rseq |-> OptF(f[7], IF f[6] THEN 12 ELSE 0), rurl |-> OptF(f[8], 7),
@@ -300,7 +304,7 @@ NoSkip  == <<FALSE, FALSE, FALSE>>
 SeqsOver(S, n) == [1 .. n -> S]
 PatternCases(full, seed) ==
   LET P == SeedParams(seed + 2)
-      nd == IF full THEN 4 ELSE 4      tcs == IF full THEN {0, 1, 3} ELSE {0, 2}
+      nd == IF full THEN 4 ELSE 4      tcs == IF full THEN {0, 1, 2, 3, 4} ELSE {0, 2, 3}    \* (a kept node after a rejected one with more, fewer, as many tags)
       nw == 3
       WB == {WayO(ic, tc, nr, "none", FALSE) : ic \in {FInfoA, NoInfo}, tc \in {0, 2}, nr \in {0, 2}}       \* 8
       RB == {RelO(ic, tc, nm, FALSE) : ic \in {FInfoB, NoInfo}, tc \in {0, 1}, nm \in {0, 2}}               \* 8
